@@ -22,15 +22,25 @@ D0 = 16 * U
 cid_var = contextvars.ContextVar('cid', default=None)
 
 
+class HarnessRefusal(ValueError):
+    """the caller-supplied mapping declines to store a value (too large, say)"""
+
+
 class RecordingMapping(MutableMapping):
-    def __init__(self, emit):
+    def __init__(self, emit, refuse=()):
         self.d = {}
         self.emit = emit
+        self.refuse = set(refuse)       # ordinal numbers of the stores this mapping refuses
+        self.nset = 0
 
     def __getitem__(self, k):
         return self.d[k]
 
     def __setitem__(self, k, v):
+        self.nset += 1
+        if self.nset in self.refuse:
+            self.emit('cache_refused', repr(k), repr(v))
+            raise HarnessRefusal(v[1] if isinstance(v, tuple) and len(v) == 2 else None)
         self.emit('cache_set', repr(k), repr(v))
         self.d[k] = v
 
@@ -104,6 +114,10 @@ def domain_dims(rng, flavour, scen):
         scen['fail_class'] = 'signal'
     if rng.random() < 0.15:
         scen['unwind'] = rng.choice([D0, 4 * D0])
+    if flavour != 'c01' and scen['cache'] == 'rec' and scen.get('result') != 'none' and rng.random() < 0.4:
+        scen['refuse'] = sorted({rng.randint(1, 3) for _ in range(rng.randint(1, 2))})
+    if flavour != 'c01' and rng.random() < 0.12:
+        scen['spawn'] = rng.choice(['now', U, D0 / 2])
     return scen
 
 
@@ -184,7 +198,7 @@ class CacheHarness:
 
             ninv = [0]
             if scen['cache'] == 'rec':
-                cache = RecordingMapping(emit)
+                cache = RecordingMapping(emit, scen.get('refuse', ()))
             elif scen['cache'] == 'lru':
                 try:
                     from lru import LRU
@@ -204,6 +218,30 @@ class CacheHarness:
                 if hasattr(s, 'inv_begin'):          # Engine B: online overlap monitor
                     s.inv_begin(key, n, lp)
                 dur, fail = invs[min(n - 1, len(invs) - 1)]
+                if scen.get('spawn') and n <= 2:
+                    # the wrapped function starts a helper it does not wait for; the helper asks the cache for the same key
+                    parent = cid_var.get()
+
+                    async def helper(hid=f'{parent}.h{n}', delay=scen['spawn']):
+                        if delay != 'now':
+                            await aio.sleep(delay)
+                        cid_var.set(hid)
+                        emit('call', hid, key, lp.sim_name)
+                        try:
+                            r = await cf(key)
+                            emit('ret', hid, 'ok', r)
+                        except (HarnessError, HarnessSignal) as e:
+                            emit('ret', hid, 'exc', 'HarnessError', e.args[0])
+                        except HarnessRefusal as e:
+                            emit('ret', hid, 'exc', 'HarnessError' if e.args[0] is not None else 'HarnessRefusal', e.args[0])
+                        except aio.CancelledError:
+                            emit('ret', hid, 'cancelled', aio.current_task().cancelling() > 0)
+                            raise
+                        except GeneratorExit:
+                            raise
+                        except BaseException as e:      # noqa - classify, never hide
+                            emit('ret', hid, 'exc', type(e).__name__, repr(e)[:200])
+                    box.setdefault('helpers', []).append(aio.ensure_future(helper()))
                 try:
                     if dur == 'none':
                         pass
@@ -272,6 +310,9 @@ class CacheHarness:
                             emit('ret', cid, 'ok', r)
                         except (HarnessError, HarnessSignal) as e:
                             emit('ret', cid, 'exc', 'HarnessError', e.args[0])
+                        except HarnessRefusal as e:
+                            # the mapping's refusal reaches the caller whose computation produced the value
+                            emit('ret', cid, 'exc', 'HarnessError' if e.args[0] is not None else 'HarnessRefusal', e.args[0])
                         except TimeoutError:
                             emit('ret', cid, 'timeout', None)
                         except aio.CancelledError:
@@ -844,9 +885,9 @@ class CacheCheck(Check):
         st = res.stats
         st['executions'] += 1
         st[f'fam_{case["fam"]}'] += 1
-        for dim in ('result', 'fail_class', 'unwind'):
+        for dim in ('result', 'fail_class', 'unwind', 'refuse', 'spawn'):
             if scen.get(dim):
-                st[f'dimension_{dim}_{scen[dim] if dim != "unwind" else "slow"}'] += 1
+                st[f'dimension_{dim}' + (f'_{scen[dim]}' if dim in ('result', 'fail_class') else '')] += 1
         st[f'strategy_{strat.kind}'] += 1
         if any(e[0] == 'inject' for e in r.log):
             st['injected_loop_stop'] += 1
